@@ -119,10 +119,18 @@ ReportRuns ==
                        Run("report:" \o k \o ":plain", <<"report", "--aggregate", k, "--decimal", "--diff", "--no-warn">>)]
     \o [i \in 1..5 |-> LET k == <<"day", "week", "month", "quarter", "year">>[i] IN
                        Run("report:" \o k \o ":fill", <<"report", "--aggregate", k, "--decimal", "--fill", "--no-warn">>)]
-ReportShards == {[k |-> "report", a |-> i, b |-> j] : i \in 1..ND, j \in 1..ND}
+ReportShards == {[k |-> "report", a |-> i, b |-> j] : i \in 1..ND, j \in 1..ND} \cup {[k |-> "report", a |-> 0, b |-> 0]}
+(* records centuries apart: the rows of a filled report still reach from the first to the last record *)
+SpanRuns == <<Run("report:year:fill", <<"report", "--aggregate", "year", "--fill", "--decimal", "--no-warn">>),
+              Run("report:quarter:fill", <<"report", "--aggregate", "quarter", "--fill", "--decimal", "--no-warn">>),
+              Run("report:year:plain", <<"report", "--aggregate", "year", "--decimal", "--diff", "--no-warn">>),
+              Run("total:plain", <<"total", "--diff", "--decimal", "--no-warn">>)>>
+SpanCases == {CaseOf(FileText(<<RecOf(Ord(1700, 1, 1), "", <<>>, <<E("1h", "")>>), RecOf(Ord(1992, 6, 1), "8h!", <<>>, <<E("30m", "")>>),
+                               RecOf(Ord(2024, 3, 1), "", <<>>, <<E("6h", "")>>)>>), NowOf(Ord(2020, 3, 15), 720), SpanRuns)}
 (* the dates of one file come from the same window, so that --fill stays small *)
 Window(i) == IF i <= 12 THEN 1 ELSE IF i <= 18 THEN 2 ELSE IF i <= 21 THEN 3 ELSE IF i <= 23 THEN 4 ELSE IF i <= 25 THEN 1 ELSE 5
 ReportCases(sh) ==
+    IF sh.a = 0 THEN SpanCases ELSE
     IF ~Pick(sh.a + 7 * sh.b, 3, 1) \/ Window(sh.a) # Window(sh.b) THEN {}
     ELSE {CaseOf(FileText(<<RecOf(DatePool[sh.a], "8h!", <<>>, <<E(Amounts[1 + (sh.a % 6)], "")>>),
                            RecOf(DatePool[sh.b], "", <<>>, <<E(Amounts[1 + (sh.b % 6)], ""), E("30m", "")>>),
@@ -142,7 +150,8 @@ FilterFile(ref) ==
     [i \in 1..Len(Offsets) |->
         LET r == RecOf(ref + Offsets[i], IF i % 2 = 0 THEN "8h!" ELSE IF i % 5 = 0 THEN "-30m!" ELSE "", IF i % 4 = 0 THEN <<"day #rec=R" \o NatStr(i % 3) \o " #all">> ELSE <<>>,
                        <<E("1h", IF i % 2 = 0 THEN "#a #b=1" ELSE "#B=2 x"), E("8:00 - 9:00", IF i % 3 = 0 THEN "#a=x" ELSE ""),
-                         E("-30m", "#c"), E("10:00 - ?", "#open")>>)
+                         E("-30m", "#c"), E("10:00 - ?", "#open"),
+                         EM("2h", "", <<"Planning #proj=alpha" \o NatStr(i % 2)>>), EM("3h", "first", <<"then #proj=alpha0 #c">>)>>)
         IN  IF i % 3 = 1 THEN Slashed(r) ELSE r]      \* both date notations in one file
 D(o) == FormatDate(o, TRUE)
 Q(at, since, until) == [NoQuery EXCEPT !.at = at, !.since = since, !.until = until]
@@ -178,10 +187,14 @@ FilterRunsFor(ref) ==
                       RunQ("json:lastyear", <<"json", "--lastyear">>, Q(-1, prev("year").since, prev("year").until))}
         tagQs == {<<"a", {<<"a", "">>}>>, <<"#a", {<<"a", "">>}>>, <<"A", {<<"a", "">>}>>, <<"b=1", {<<"b", "1">>}>>, <<"b=2", {<<"b", "2">>}>>,
                   <<"b", {<<"b", "">>}>>, <<"a=x", {<<"a", "x">>}>>, <<"a=X", {<<"a", "X">>}>>, <<"rec=R1", {<<"rec", "R1">>}>>,
-                  <<"rec", {<<"rec", "">>}>>, <<"all", {<<"all", "">>}>>, <<"c", {<<"c", "">>}>>, <<"nope", {<<"nope", "">>}>>}
+                  <<"rec", {<<"rec", "">>}>>, <<"all", {<<"all", "">>}>>, <<"c", {<<"c", "">>}>>, <<"nope", {<<"nope", "">>}>>,
+                  <<"proj=alpha0", {<<"proj", "alpha0">>}>>, <<"proj", {<<"proj", "">>}>>}
         tagRuns == {RunQ("json:tag", <<"json", "--tag", t[1]>>, [NoQuery EXCEPT !.tags = t[2]]) : t \in tagQs}
                    \cup {RunQ("json:tag2", <<"json", "--tag", "a", "--tag", "b=1">>, [NoQuery EXCEPT !.tags = {<<"a", "">>, <<"b", "1">>}]),
-                         RunQ("json:tag2", <<"json", "--tag", "all", "--tag", "c">>, [NoQuery EXCEPT !.tags = {<<"all", "">>, <<"c", "">>}])}
+                         RunQ("json:tag2", <<"json", "--tag", "all", "--tag", "c">>, [NoQuery EXCEPT !.tags = {<<"all", "">>, <<"c", "">>}]),
+                         (* no entry carries both: nothing is selected, whatever entries came before *)
+                         RunQ("json:tag2", <<"json", "--tag", "c", "--tag", "open">>, [NoQuery EXCEPT !.tags = {<<"c", "">>, <<"open", "">>}]),
+                         RunQ("json:tag2", <<"json", "--tag", "a=x", "--tag", "b">>, [NoQuery EXCEPT !.tags = {<<"a", "x">>, <<"b", "">>}])}
         types == {"range", "open-range", "duration", "duration-positive", "duration-negative"}
         typeRuns == {RunQ("json:type", <<"json", "--entry-type", t>>, [NoQuery EXCEPT !.etype = t]) : t \in types}
                     \cup {RunQ("json:type", <<"json", "--entry-type", "OPEN_RANGE">>, [NoQuery EXCEPT !.etype = "open-range"])}
@@ -201,12 +214,15 @@ FilterRunsFor(ref) ==
                          : r \in {x \in all : StartsWith(x.id, "json") /\ ~StartsWith(x.id, "json:sort")}}
     IN  all \cup printTwins
 SetToSeq(S) == LET RECURSIVE f(_) f(X) == IF X = {} THEN <<>> ELSE LET x == CHOOSE y \in X : TRUE IN <<x>> \o f(X \ {x}) IN f(S)
-FilterShards == {[k |-> "filter", a |-> i, b |-> j] : i \in 1..Len(RefDates), j \in 0..1}
+FilterShards == {[k |-> "filter", a |-> i, b |-> j] : i \in 1..Len(RefDates), j \in 0..2}
 FilterCases(sh) ==
     LET ref == RefDates[sh.a]
         recs == FilterFile(ref)
         (* the same records in file order (b = 0) or reversed (b = 1) *)
-        ordered == IF sh.b = 0 THEN recs ELSE [i \in 1..Len(recs) |-> recs[Len(recs) + 1 - i]]
+        n == Len(recs)
+        (* ... or shuffled: the even positions first, then the odd ones backwards (no date order at all) *)
+        ordered == IF sh.b = 0 THEN recs ELSE IF sh.b = 1 THEN [i \in 1..n |-> recs[n + 1 - i]]
+                   ELSE [i \in 1..n |-> IF i <= n \div 2 THEN recs[2 * i] ELSE recs[2 * (n - i) + 1]]
     IN  {CaseOf(FileText(ordered), NowOf(ref, 600), SetToSeq(FilterRunsFor(ref)))}
 
 (***************************************************************************)
@@ -290,6 +306,14 @@ TagCases(sh) ==
     ELSE IF sh.a = 0
     THEN {CaseOf(FileText(<<RecOf(T0, "", <<Redundant[i]>>, <<E("1h", Redundant[j]), E("30m", ""), E("8:00 - 9:00", Redundant[i])>>)>>),
                  NowOf(T0, 720), TagRuns) : i, j \in 1..Len(Redundant)}
+         (* more different tags than any fixed table holds; the first one recurs at the end *)
+         \cup {CaseOf(FileText(<<RecOf(T0, "", <<>>, [i \in 1..n |-> E("1h", "#ticket=" \o NatStr(i) \o (IF i % 7 = 0 THEN " #late" ELSE ""))]
+                                                     \o <<E("30m", "#ticket=1 #late")>>)>>), NowOf(T0, 720), TagRuns) : n \in {31, 32, 33, 40, 70}}
+         (* tags on continuation lines: the text of an entry may start on the line after its value *)
+         \cup {CaseOf(FileText(<<RecOf(T0, "", <<Redundant[i], "second line " \o Redundant[j]>>,
+                                       <<EM("1h", "", <<Redundant[j] \o " follow-up">>), EM("30m", Redundant[i], <<"cont", Redundant[j] \o " end">>),
+                                         E("8:00 - 9:00", "")>>)>>),
+                      NowOf(T0, 720), TagRuns) : i, j \in 1..Len(Redundant)}
     ELSE {CaseOf(FileText(<<RecOf(T0, "", <<"x">>,
                            <<E("1h", "#" \o TagAlpha[sh.a] \o TagAlpha[sh.b] \o TagAlpha[c] \o TagAlpha[d]),
                              E("2h", TagAlpha[sh.a] \o "#" \o TagAlpha[sh.b] \o TagAlpha[c] \o TagAlpha[d] \o "#a")>>)>>),
@@ -327,7 +351,11 @@ StyleFiles == <<
     <<RecOf(T0, "7h!", <<"stand-up with the #team", "then #gym">>,
             <<E("9:00 - 9:15", "#ticket=2024"), E("1h", "review #k=38 #m"), E("-15m", "#pause=5;1m"), E("10:00 - ?", "#z=[0m")>>)>>,
     (* days without records in between (rows filled in by --fill) *)
-    <<RecOf(T0 - 4, "", <<>>, <<E("3h", "")>>), RecOf(T0 - 1, "8h!", <<>>, <<E("12h30m", "#long")>>), RecOf(T0 + 2, "", <<>>, <<E("-1h", "")>>)>>
+    <<RecOf(T0 - 4, "", <<>>, <<E("3h", "")>>), RecOf(T0 - 1, "8h!", <<>>, <<E("12h30m", "#long")>>), RecOf(T0 + 2, "", <<>>, <<E("-1h", "")>>)>>,
+    (* entries whose text starts on the line after the value *)
+    <<RecOf(T0, "", <<"#r">>, <<EM("8:00 - 9:00", "", <<"continued #x on the next line">>), EM("1h", "", <<"also", "three #lines">>), E("2h", "")>>)>>,
+    (* tables of several hundred rows (more than 8 KiB of output) *)
+    [i \in 1..400 |-> RecOf(T0 - 401 + i, IF i % 50 = 0 THEN "8h!" ELSE "", <<>>, <<E("1h", "#t" \o NatStr(i % 90))>>)]
 >>
 StyleShards == {[k |-> "style", a |-> i, b |-> 0] : i \in 1..Len(StyleFiles)}
 StyleCases(sh) == {CaseOf(FileText(StyleFiles[sh.a]), NowOf(T0, 840), StyleRuns)}
@@ -368,7 +396,7 @@ Laws ==
                   IN  Filter(R, q) = Filter(Filter(R, dOnly), rest)
         (* report buckets partition the records *)
         /\ Mode = "report" =>
-              \A kind \in {"day", "week", "month", "quarter", "year"} :
+              \A kind \in (IF shard.a = 0 THEN {"quarter", "year"} ELSE {"day", "week", "month", "quarter", "year"}) :
                   LET bs == Buckets(R, kind, FALSE) IN
                   /\ SumSeq([k \in 1..Len(R) |-> Cardinality({b \in bs : BucketOf(kind, R[k].date.ord) = b})], 1) = Len(R)
                   /\ \A b \in Buckets(R, kind, TRUE) \ bs : RowOf(R, kind, b).empty
